@@ -10,6 +10,7 @@ import (
 	"strings"
 	"sync"
 	"time"
+	"verif/internal/e1"
 
 	"github.com/aukilabs/hagall-common/messages/dagazpb"
 
@@ -270,6 +271,11 @@ func init() {
 		a := &acc{}
 		partGridInVivo(c, a)
 		partGridWire(c, a)
+		partE1(c, a, e1Batch{Profiles: []string{"dagaz"}, Histories: c.Pick(60, 600), Steps: c.Pick(100, 160), MaxConns: 5, MaxSess: 3, Mods: []string{"vod", "d"}},
+			"at least 8 samples were inserted and both a plane count and a whole-grid listing were answered and matched",
+			func(s *e1.Stats) bool {
+				return s.Accepted["dz_quad"] >= 4 && s.Accepted["dz_info"] >= 1 && s.Accepted["dz_region"] >= 1
+			})
 		return a.finish(c)
 	}
 }
